@@ -659,6 +659,14 @@ def case_strategy(draw, driver=None):
     case = {"driver": drv, "callers": callers, "inject": inject, "events": events, "lat": draw(st.lists(st.floats(0, 0.999), max_size=10)),
             "tie": True, "drain_virtual": 5.0, "horizon": round(t + 1.0, 3),
             "map": draw(st.sampled_from([[], [[1, 1, 1], [3, 3, 3]], [[1, 1, 4], [2, 4, 1], [3, 3, 1]]]))}
+    if drv != "hasseb":
+        # events of the very instances the table names (so that the table matters), any event data
+        for (s_, i_, t_) in case["map"]:
+            if draw(st.booleans()):
+                t += 0.31
+                inject.append({"t": round(t, 4), "kind": "forward", "bits": 24,
+                               "value": (s_ << 17) | 0x8000 | (i_ << 10) | draw(st.sampled_from([0, 1, 2, 5, 9, 0x155, 0x3FF]))})
+        case["horizon"] = round(t + 1.0, 3)
     if drv == "tridonic":
         case["seq0"] = draw(st.sampled_from([1, 77, 255]))
     return case
